@@ -7,3 +7,5 @@ import props_misc
 RUN.update(C03=props_misc.run_c03, C13=props_misc.run_c13, C14=props_misc.run_c14, C15=props_misc.run_c15, C16=props_misc.run_c16)
 import props_acc
 RUN.update(C11=props_acc.run_c11, C12=props_acc.run_c12)
+import props_conc
+RUN.update(C19=props_conc.run_c19, C20=props_conc.run_c20)
